@@ -69,6 +69,8 @@ func VerifC03_EthChainID() {
 	}
 	called := false
 	ctx := sdk.Context{}.WithBlockHeight(10)
+	// the unsigned From field as it arrives: empty, the real signer, or somebody else
+	msg.From = []string{"", vSenders[0].Hex(), vSenders[1].Hex()}[zz.Choose("fromField", 3)]
 	_, err := dec.AnteHandle(ctx, vTx{msgs: []sdk.Msg{msg}}, false, vNext(&called))
 	zz.Assert(zz.Iff(err == nil, called), "the decorator either rejects or passes the transaction on")
 	ok := zz.Or(zz.And(protected, forThisChain), zz.And(!protected, allow))
